@@ -1590,15 +1590,14 @@ _vbi_cache_put_page		(vbi_cache *		ca,
 		subno_mask = 0x000F;
 	}
 
-	old_cp = NULL;
-
-	if (0 == subno_mask) {
-		/* One version. When other versions are cached as well
-		   (subpages, other subcodes) replace our own previous
-		   copy, not one of them, or another copy is left behind
-		   by each retransmission. */
-		old_cp = page_by_pgno (ca, cn, cp->pgno, subno, -1);
-	}
+	/* Replace our own previous copy when there is one. The masked
+	   lookup below takes the most recently used page which matches
+	   the key: when a single version page is stored beside other
+	   versions (subpages, other subcodes), or a subpage beside a
+	   clock page with the same low digits (x.2303 and x.3), that
+	   is usually another page, and another copy of this one was
+	   left behind by each retransmission. */
+	old_cp = page_by_pgno (ca, cn, cp->pgno, subno, -1);
 
 	if (NULL == old_cp) {
 		old_cp = page_by_pgno (ca, cn,
